@@ -713,6 +713,16 @@ def run(ctx):
                     for a in argvs:
                         samples.append((exe, a, flags, "%s %s %s" % (prog, be, a)))
         run_memcheck(ctx, samples, 900)
+    if not ctx.violations:
+        # the executables are 11 MB each: keep only the sources
+        for sub in os.listdir(os.path.join(build.BUILD, "scratch")):
+            if sub.startswith("c13_") and os.path.isdir(os.path.join(build.BUILD, "scratch", sub)):
+                for f in os.listdir(os.path.join(build.BUILD, "scratch", sub)):
+                    if not f.endswith(".dora"):
+                        try:
+                            os.unlink(os.path.join(build.BUILD, "scratch", sub, f))
+                        except OSError:
+                            pass
     ctx.extra["collectors"] = list(GCS) + ["zero (heap and size scenarios)"]
     ctx.required_counters = [x for x, s in (("stack_control_runs", "stack"), ("stack_on_thread", "stack"), ("heap_control_runs", "heap"),
                                             ("size_control_runs", "size"), ("size_runs", "size")) if s in only]
